@@ -219,9 +219,18 @@ def rule_f(repo, chk):
     path_prefix_check(repo, chk, 'C19.f', ['jedi.inference.references'], triaged=PREFIX_TRIAGED, floor=2)
 
 
+def rule_g(repo, chk):
+    chk.clause('C19.g', 'the project directory is searched once: the test that drops it from the sys.path part of the search compares values of '
+                        'one kind (str with str): a Path-vs-str comparison is constantly true, the folder is then searched twice and ignored '
+                        'top-level modules come back through the second route (checked as C20.f; re-run here)')
+    from . import c20
+    from ..report import Relabel
+    c20.rule_f(repo, Relabel(chk, 'C19.g'))
+
+
 def describe(chk):
     chk.undecided('completeness of the hits (depends on the engine); glob patterns and negations in .gitignore (deliberately skipped by jedi); '
                   'the documented file limits')
 
 
-RULES = [('C19.a', rule_a), ('C19.b', rule_b), ('C19.c', rule_c), ('C19.d', rule_d), ('C19.e', rule_e), ('C19.f', rule_f)]
+RULES = [('C19.a', rule_a), ('C19.b', rule_b), ('C19.c', rule_c), ('C19.d', rule_d), ('C19.e', rule_e), ('C19.f', rule_f), ('C19.g', rule_g)]
